@@ -28,14 +28,14 @@ with prog :=
 | PContext (k : bool -> prog)                                (* k receives "ctx.Err() == nil" *)
 | PFailed (k : bool -> prog)
 | PLog (n : N) (k : prog)
-| PRepeat (id : nat) (K : N) (s0 : val) (check : option (val -> prog))
+| PRepeat (id : nat) (K : N) (s0 : val) (haschk : bool) (check : val -> prog)
           (nacts : nat) (act : nat -> val -> prog) (k : val -> prog).
 
 (* The bookkeeping of one *T. *)
 Record tstate := mkT {
   failed : option msg;          (* T.failed ("" = None) *)
   cleanups : list (nat * prog); (* T.cleanups, last registered first *)
-  ctx : option nat;             (* T.ctx: id of the live context, if one was created *)
+  ctx : bool;                   (* T.ctx != nil: a live context was created and not yet cancelled *)
   cleaning : bool;              (* T.cleaning *)
 }.
-Definition fresh_t : tstate := mkT None [] None false.
+Definition fresh_t : tstate := mkT None [] false false.
